@@ -6,33 +6,27 @@ import (
 	"archive/tar"
 	"bytes"
 	"context"
-	"encoding/hex"
 	"fmt"
 	"io"
-	"net/http"
 	"os"
 	"path/filepath"
 	"sort"
 	"strings"
 	"sync"
-	"syscall"
 	"testing"
 	"time"
 
-	"github.com/containerd/containerd/v2/core/remotes/docker"
 	"github.com/containerd/containerd/v2/pkg/reference"
 	"github.com/containerd/stargz-snapshotter/cache"
 	"github.com/containerd/stargz-snapshotter/estargz"
 	"github.com/containerd/stargz-snapshotter/fs/config"
 	"github.com/containerd/stargz-snapshotter/fs/reader"
-	"github.com/containerd/stargz-snapshotter/fs/source"
 	"github.com/containerd/stargz-snapshotter/internal/verifc02"
 	"github.com/containerd/stargz-snapshotter/internal/verifreg"
 	"github.com/containerd/stargz-snapshotter/internal/verifutil"
 	"github.com/containerd/stargz-snapshotter/metadata"
 	memorymetadata "github.com/containerd/stargz-snapshotter/metadata/memory"
 	"github.com/containerd/stargz-snapshotter/task"
-	"github.com/hanwen/go-fuse/v2/fuse"
 	digest "github.com/opencontainers/go-digest"
 	ocispec "github.com/opencontainers/image-spec/specs-go/v1"
 )
@@ -166,92 +160,6 @@ func (c *verifCache) presentKeys() []string {
 	return out
 }
 
-// ---- transport in front of the registry: faults and stalls for blob fetches -------------------
-
-type verifRT struct {
-	reg *verifreg.Registry
-	mu  sync.Mutex
-	// failFetch: every blob fetch (Range GET with Accept-Encoding: identity) fails
-	failFetch bool
-	// stall: blob fetches block until the channel is closed (or the request is cancelled)
-	stall chan struct{}
-	// fetches counts blob fetch requests that reached the transport; ranges collects what they asked
-	fetches int
-	ranges  [][2]int64
-	stalled int
-}
-
-func verifIsFetch(req *http.Request) bool {
-	return req.Method == "GET" && req.Header.Get("Accept-Encoding") == "identity"
-}
-
-func verifParseRanges(h string) [][2]int64 {
-	var out [][2]int64
-	for _, part := range strings.Split(strings.TrimPrefix(h, "bytes="), ",") {
-		var b, e int64
-		if _, err := fmt.Sscanf(strings.TrimSpace(part), "%d-%d", &b, &e); err == nil {
-			out = append(out, [2]int64{b, e})
-		}
-	}
-	return out
-}
-
-func (rt *verifRT) RoundTrip(req *http.Request) (*http.Response, error) {
-	if verifIsFetch(req) {
-		rt.mu.Lock()
-		rt.fetches++
-		rt.ranges = append(rt.ranges, verifParseRanges(req.Header.Get("Range"))...)
-		fail := rt.failFetch
-		st := rt.stall
-		if st != nil {
-			rt.stalled++
-		}
-		rt.mu.Unlock()
-		if st != nil {
-			select {
-			case <-st:
-			case <-req.Context().Done():
-				return nil, req.Context().Err()
-			}
-		}
-		if fail {
-			return nil, fmt.Errorf("verif: registry unreachable")
-		}
-	}
-	return rt.reg.RoundTrip(req)
-}
-
-func (rt *verifRT) set(fail bool) {
-	rt.mu.Lock()
-	rt.failFetch = fail
-	rt.mu.Unlock()
-}
-
-func (rt *verifRT) resetLog() {
-	rt.mu.Lock()
-	rt.fetches = 0
-	rt.ranges = nil
-	rt.mu.Unlock()
-}
-
-func (rt *verifRT) snapshot() (int, [][2]int64) {
-	rt.mu.Lock()
-	defer rt.mu.Unlock()
-	return rt.fetches, append([][2]int64(nil), rt.ranges...)
-}
-
-func (rt *verifRT) hosts() source.RegistryHosts {
-	return func(ref reference.Spec) ([]docker.RegistryHost, error) {
-		return []docker.RegistryHost{{
-			Client:       &http.Client{Transport: rt},
-			Host:         rt.reg.RegHost,
-			Scheme:       "https",
-			Path:         "/v2",
-			Capabilities: docker.HostCapabilityPull | docker.HostCapabilityResolve,
-		}}, nil
-	}
-}
-
 // ---- the fixture --------------------------------------------------------------------------
 
 type verifFile struct {
@@ -301,12 +209,13 @@ type verifStack struct {
 	prefetchOff int64
 
 	reg  *verifreg.Registry
-	rt   *verifRT
+	rt   *verifc02.RT
 	root string
 	res  *Resolver
 	lref Layer
 	l    *layer
 	tree *verifc02.Tree
+	meta *verifc02.Meta
 	wc   *verifCache
 
 	files   []*verifFile
@@ -359,7 +268,7 @@ func verifNewStack(t *testing.T, ents []verifc02.Ent, opts verifc02.BuildOpts, c
 	s.reg = verifreg.New()
 	dgst := digest.FromBytes(blob)
 	s.reg.AddBlob(dgst.String(), blob)
-	s.rt = &verifRT{reg: s.reg}
+	s.rt = &verifc02.RT{Reg: s.reg}
 	s.root, err = os.MkdirTemp(os.Getenv("VERIF_WORK"), "c02-")
 	if err != nil {
 		return nil, err
@@ -394,7 +303,7 @@ func verifNewStack(t *testing.T, ents []verifc02.Ent, opts verifc02.BuildOpts, c
 		s.close()
 		return nil, err
 	}
-	lr, err := s.res.Resolve(context.Background(), s.rt.hosts(), refspec, ocispec.Descriptor{Digest: dgst, Size: int64(len(blob))})
+	lr, err := s.res.Resolve(context.Background(), s.rt.Hosts(), refspec, ocispec.Descriptor{Digest: dgst, Size: int64(len(blob))})
 	if err != nil {
 		s.close()
 		return nil, fmt.Errorf("resolve: %w", err)
@@ -419,6 +328,7 @@ func verifNewStack(t *testing.T, ents []verifc02.Ent, opts verifc02.BuildOpts, c
 		return nil, fmt.Errorf("rootnode: %w", err)
 	}
 	s.tree = verifc02.NewTree(rootNode)
+	s.meta = &verifc02.Meta{T: s.tree, View: s.view, Ctx: opts.String()}
 
 	// regular files by node id (hardlinks share the id); landmarks are regular files of the TOC too
 	var names []string
@@ -546,30 +456,6 @@ func (s *verifStack) emitLayout(out *verifutil.Out) {
 	}
 }
 
-func verifHex(s string) string {
-	if s == "" {
-		return "-"
-	}
-	return hex.EncodeToString([]byte(s))
-}
-
-// emitTar sends the archive (the SPEC input) to the model.
-func (s *verifStack) emitTar(out *verifutil.Out) {
-	out.Emit("tar.reset", "ok")
-	for i, e := range s.ents {
-		var xs []string
-		for _, kv := range e.Xattrs {
-			xs = append(xs, verifHex(kv[0])+"="+verifHex(kv[1]))
-		}
-		x := "-"
-		if len(xs) > 0 {
-			x = strings.Join(xs, ";")
-		}
-		out.Emit(fmt.Sprintf("tent %c %s %d %d %d %d %s %d %d %d %s", e.Type, verifHex(e.Name), e.Mode, e.UID, e.GID, e.Size,
-			verifHex(e.Link), e.Maj, e.Min, i, x), "ok")
-	}
-}
-
 // ---- single operations: impl + model line + oracle --------------------------------------------
 
 type verifFault int
@@ -588,9 +474,9 @@ func (s *verifStack) opRead(out *verifutil.Out, p string, off int64, n int, faul
 	}
 	f := s.files[fi]
 	s.wc.reset()
-	s.rt.set(fault == verifFailFetch)
+	s.rt.Set(fault == verifFailFetch)
 	got, errno := s.tree.Read(p, off, n)
-	s.rt.set(false)
+	s.rt.Set(false)
 	stored := s.showKeys(s.wc.committed())
 	u := "ok"
 	if errno != 0 && fault != verifNoFault {
@@ -680,195 +566,11 @@ func (s *verifStack) opLookup(out *verifutil.Out, fi int, x int64) {
 	out.Count("lookup")
 }
 
-func verifTypeChar(mode uint32) byte {
-	switch mode & syscall.S_IFMT {
-	case syscall.S_IFDIR:
-		return 'd'
-	case syscall.S_IFLNK:
-		return 'l'
-	case syscall.S_IFCHR:
-		return 'c'
-	case syscall.S_IFBLK:
-		return 'b'
-	case syscall.S_IFIFO:
-		return 'p'
-	case syscall.S_IFSOCK:
-		return 's'
-	}
-	return 'f'
-}
-
-// opStat: Lookup + Getattr (+ Readlink) of a path; compared with the model's tarView and with the
-// Go oracle.
-func (s *verifStack) opStat(out *verifutil.Out, p string, modelled bool) {
-	var a fuse.Attr
-	var errno syscall.Errno
-	var la fuse.Attr
-	if p == "" {
-		a, errno = s.tree.Getattr("")
-		la = a
-	} else {
-		var eo fuse.EntryOut
-		_, eo, errno = s.tree.Lookup(p)
-		la = eo.Attr
-		if errno == 0 {
-			a, errno = s.tree.Getattr(p)
-		}
-	}
-	n, exists := s.view[p]
-	res := "noent"
-	link := ""
-	if errno == 0 {
-		if a.Mode&syscall.S_IFMT == syscall.S_IFLNK {
-			link, _ = s.tree.Readlink(p)
-		}
-		res = fmt.Sprintf("%o %d %d %d %d %d %d %s", a.Mode, a.Size, a.Nlink, a.Uid, a.Gid, a.Rdev, a.Blocks, verifHex(link))
-	} else if errno != syscall.ENOENT {
-		res = fmt.Sprintf("errno-%d", int(errno))
-	}
-	if modelled {
-		out.Emit("stat "+verifHex(p), res)
-	}
-	out.Count("stat")
-	// ---- oracle ----
-	if !exists {
-		if errno != syscall.ENOENT {
-			out.Fail("lookup-of-missing-name-succeeded", fmt.Sprintf("%q is not in the tar but lookup gave errno=%v", p, errno))
-		}
-		return
-	}
-	if errno != 0 {
-		out.Fail("lookup-failed", fmt.Sprintf("%q is in the tar but lookup/getattr gave %v [%s]", p, errno, s.opts))
-		return
-	}
-	if d := verifc02.CheckAttr(a, n); len(d) > 0 {
-		out.Fail("attr-differs-"+strings.SplitN(d[0], ":", 2)[0], fmt.Sprintf("getattr %q (entry %q): %s", p, n.Path, strings.Join(d, "; ")))
-	}
-	if p != "" {
-		if d := verifc02.CheckAttr(la, n); len(d) > 0 {
-			out.Fail("lookup-attr-differs-"+strings.SplitN(d[0], ":", 2)[0], fmt.Sprintf("lookup %q (entry %q): %s", p, n.Path, strings.Join(d, "; ")))
-		}
-		if la.Ino != a.Ino {
-			out.Fail("ino-differs-lookup-getattr", fmt.Sprintf("%q: lookup ino %d getattr ino %d", p, la.Ino, a.Ino))
-		}
-	}
-	if n.Type == tar.TypeSymlink && link != n.Link {
-		out.Fail("readlink-differs", fmt.Sprintf("%q: %q want %q", p, link, n.Link))
-	}
-}
-
-// opLs: Readdir of a directory; names and types against the tar.
-func (s *verifStack) opLs(out *verifutil.Out, p string, modelled bool) {
-	ents, errno := s.tree.Readdir(p)
-	res := "noent"
-	var names []string
-	gotType := map[string]byte{}
-	gotIno := map[string]uint64{}
-	dots := 0
-	if errno == 0 {
-		for _, e := range ents {
-			if e.Name == "." || e.Name == ".." {
-				dots++
-				continue
-			}
-			names = append(names, e.Name)
-			gotType[e.Name] = verifTypeChar(e.Mode)
-			gotIno[e.Name] = e.Ino
-		}
-		sort.Strings(names)
-		var xs []string
-		for _, n := range names {
-			xs = append(xs, verifHex(n)+":"+string(gotType[n]))
-		}
-		res = "-"
-		if len(xs) > 0 {
-			res = strings.Join(xs, ",")
-		}
-	}
-	if modelled {
-		out.Emit("ls "+verifHex(p), res)
-	}
-	out.Count("ls")
-	n, exists := s.view[p]
-	if !exists || n.Type != tar.TypeDir {
-		return
-	}
-	if errno != 0 {
-		out.Fail("readdir-failed", fmt.Sprintf("readdir %q: %v", p, errno))
-		return
-	}
-	want := verifc02.Children(s.view, p)
-	if strings.Join(names, "\x00") != strings.Join(want, "\x00") {
-		out.Fail("listing-differs", fmt.Sprintf("readdir %q: got %q, the tar has %q [%s]", p, names, want, s.opts))
-		return
-	}
-	if dots != 2 {
-		out.Fail("listing-dot-entries", fmt.Sprintf("readdir %q: %d of '.' '..'", p, dots))
-	}
-	for _, c := range want {
-		cp := c
-		if p != "" {
-			cp = p + "/" + c
-		}
-		cn := s.view[cp]
-		if verifTypeChar(cn.SysMode) != gotType[c] {
-			out.Fail("dirent-type-differs", fmt.Sprintf("readdir %q: %q has type %c want %c", p, c, gotType[c], verifTypeChar(cn.SysMode)))
-		}
-		if a, errno := s.tree.Getattr(cp); errno == 0 && a.Ino != gotIno[c] {
-			out.Fail("dirent-ino-differs", fmt.Sprintf("readdir %q: %q ino %d, getattr ino %d", p, c, gotIno[c], a.Ino))
-		}
-	}
-}
-
-// opXattr: Getxattr / Listxattr against the PAX records.
-func (s *verifStack) opXattr(out *verifutil.Out, p, name string, modelled bool) {
-	n, exists := s.view[p]
-	if !exists {
-		return
-	}
-	v, sz, errno := s.tree.Getxattr(p, name, 256)
-	res := "nodata"
-	if errno == 0 {
-		res = "v=" + verifHex(string(v))
-	} else if errno != syscall.ENODATA {
-		res = fmt.Sprintf("errno-%d", int(errno))
-	}
-	if modelled {
-		out.Emit(fmt.Sprintf("xattr %s %s", verifHex(p), verifHex(name)), res)
-	}
-	out.Count("xattr")
-	want, has := n.Xattrs[name]
-	if has {
-		if errno != 0 || string(v) != want {
-			out.Fail("xattr-differs", fmt.Sprintf("getxattr %q %q: %q errno=%v want %q", p, name, v, errno, want))
-		}
-		// a too small buffer reports the size with ERANGE
-		if len(want) > 0 {
-			_, sz2, e2 := s.tree.Getxattr(p, name, len(want)-1)
-			if e2 != syscall.ERANGE || int(sz2) != len(want) {
-				out.Fail("xattr-erange", fmt.Sprintf("getxattr %q %q with a short buffer: size=%d errno=%v", p, name, sz2, e2))
-			}
-		}
-		_ = sz
-	} else if errno != syscall.ENODATA {
-		out.Fail("xattr-unexpected", fmt.Sprintf("getxattr %q %q: errno=%v value %q, the tar has none", p, name, errno, v))
-	}
-	lst, errno := s.tree.Listxattr(p)
-	var wl []string
-	for k := range n.Xattrs {
-		wl = append(wl, k)
-	}
-	sort.Strings(wl)
-	if errno != 0 || strings.Join(lst, "\x00") != strings.Join(wl, "\x00") {
-		out.Fail("listxattr-differs", fmt.Sprintf("listxattr %q: %q errno=%v want %q", p, lst, errno, wl))
-	}
-}
-
 // opCacheFiles: VerifiableReader.Cache with the offset filter `offset < limit` (limit < 0: all files,
 // through BackgroundFetch when bg is set).
 func (s *verifStack) opCacheFiles(out *verifutil.Out, limit int64, bg bool, fault verifFault) bool {
 	s.wc.reset()
-	s.rt.set(fault == verifFailFetch)
+	s.rt.Set(fault == verifFailFetch)
 	var err error
 	if bg {
 		err = s.l.BackgroundFetch()
@@ -877,7 +579,7 @@ func (s *verifStack) opCacheFiles(out *verifutil.Out, limit int64, bg bool, faul
 	} else {
 		err = s.l.verifiableReader.Cache(reader.WithFilter(func(o int64) bool { return o < limit }))
 	}
-	s.rt.set(false)
+	s.rt.Set(false)
 	stored := s.showKeys(s.wc.committed())
 	u := "ok"
 	if err != nil && fault != verifNoFault {
@@ -1022,8 +724,9 @@ func verifPickRead(rnd *verifutil.Rand, size int64, chunks []verifc02.TocChunk) 
 func verifHistory(t *testing.T, out *verifutil.Out, rnd *verifutil.Rand, s *verifStack, nops int, label string) {
 	modelled := !s.cfg.passThrough && s.cfg.syncAdd
 	out.Comment(fmt.Sprintf("%s: %d tar entries, %s, %s", label, len(s.ents), s.opts, s.cfg))
+	s.meta.Out = out
 	s.emitLayout(out)
-	s.emitTar(out)
+	verifc02.EmitTar(out, s.ents)
 	paths := verifc02.Paths(s.view)
 	regs := verifRegularPaths(s)
 	shape := ""
@@ -1081,9 +784,9 @@ func verifHistory(t *testing.T, out *verifutil.Out, rnd *verifutil.Rand, s *veri
 			} else {
 				p = paths[rnd.Intn(len(paths))]
 			}
-			s.opStat(out, p, true)
+			s.meta.Stat(p, true)
 			if n, ok := s.view[p]; ok && n.Type == tar.TypeDir {
-				s.opLs(out, p, true)
+				s.meta.Ls(p, true)
 			}
 			if n, ok := s.view[p]; ok {
 				names := []string{"user.foo", "user.none", "user.empty"}
@@ -1091,14 +794,14 @@ func verifHistory(t *testing.T, out *verifutil.Out, rnd *verifutil.Rand, s *veri
 					names = append(names, k)
 				}
 				sort.Strings(names)
-				s.opXattr(out, p, names[rnd.Intn(len(names))], true)
+				s.meta.Xattr(p, names[rnd.Intn(len(names))], true)
 			}
 		case 3: // ls of a directory (the kernel never asks a non-directory)
 			p := paths[rnd.Intn(len(paths))]
 			if n := s.view[p]; n.Type != tar.TypeDir {
 				continue
 			}
-			s.opLs(out, p, true)
+			s.meta.Ls(p, true)
 		case 4: // evict
 			s.opEvict(out, rnd)
 			shape += "e"
